@@ -41,7 +41,7 @@ func counter(rm metricdata.ResourceMetrics, name string) int64 {
 // The returned function compares what the SDK saw with the callbacks recorded in the trace of the same run
 // (which BusTrace.tla validates): every started span ended exactly once, handler and persist spans are children
 // of a publish span, error status exactly for panics, and the counters equal the recorded numbers.
-func newOtel() (eb.Observability, func(lines [][]byte, closer bool) map[string]any) {
+func newOtel() (eb.Observability, func(lines [][]byte, cfg Cfg) map[string]any) {
 	sr := tracetest.NewSpanRecorder()
 	tp := sdktrace.NewTracerProvider(sdktrace.WithSpanProcessor(sr))
 	reader := sdkmetric.NewManualReader()
@@ -50,17 +50,24 @@ func newOtel() (eb.Observability, func(lines [][]byte, closer bool) map[string]a
 	if err != nil {
 		panic(err)
 	}
-	return o, func(lines [][]byte, closer bool) map[string]any {
-		var pubs, hruns, herrs int64
+	return o, func(lines [][]byte, cfg Cfg) map[string]any {
+		closer := cfg.Closer
+		var pubs, hruns, herrs, appends, appendErrs int64
 		for _, l := range lines {
 			var ev struct {
 				E   string `json:"e"`
 				Err bool   `json:"err"`
+				Res *bool  `json:"res"`
 			}
 			json.Unmarshal(l, &ev)
 			switch ev.E {
 			case "new":
-				pubs, hruns, herrs = 0, 0, 0
+				pubs, hruns, herrs, appends, appendErrs = 0, 0, 0, 0, 0
+			case "append":
+				appends++
+				if ev.Res != nil && !*ev.Res {
+					appendErrs++
+				}
 			case "pstart":
 				pubs++
 			case "hstart":
@@ -86,8 +93,11 @@ func newOtel() (eb.Observability, func(lines [][]byte, closer bool) map[string]a
 		if closer {
 			wantPersist = pubs
 		}
+		if cfg.Store { // the recording store: the recorded append attempts and their outcomes
+			wantPersist = appends
+		}
 		check("eventbus.persist.count", counter(rm, "eventbus.persist.count"), wantPersist)
-		check("eventbus.persist.errors", counter(rm, "eventbus.persist.errors"), 0)
+		check("eventbus.persist.errors", counter(rm, "eventbus.persist.errors"), appendErrs)
 		started, ended := sr.Started(), sr.Ended()
 		if len(started) != len(ended) && why == "" {
 			why = fmt.Sprintf("%d spans started, %d ended", len(started), len(ended))
@@ -114,7 +124,7 @@ func newOtel() (eb.Observability, func(lines [][]byte, closer bool) map[string]a
 				errSpans++
 			}
 		}
-		check("spans with error status", errSpans, herrs)
+		check("spans with error status", errSpans, herrs+appendErrs)
 		check("spans", int64(len(ended)), pubs+hruns+wantPersist)
 		return map[string]any{"e": "otel", "ok": why == "", "why": why}
 	}
